@@ -81,7 +81,8 @@ def _check_solution(st_, sol, rhs, what):
     f64 = rhs.astype(np.float64)
     expect = ref.free_space_solve(f64, dx, kernel=st_["G"])
     scale = dx**dim * st_["Gnorm"] * float(np.linalg.norm(f64))
-    tol = K_TOL * eps * scale + 4 * eps * float(np.max(np.abs(expect), initial=0.0))
+    # flush-to-zero arithmetic of the -Ofast kernels / FFTW: absolute floor of a few smallest normal numbers
+    tol = K_TOL * eps * scale + 4 * eps * float(np.max(np.abs(expect), initial=0.0)) + 64 * float(np.finfo(st_["real_t"]).tiny)
     err = float(np.max(np.abs(sol.astype(np.float64) - expect), initial=0.0))
     if tol > 0:
         st_["ctx"].extra["max_err_over_tol"] = max(st_["ctx"].extra.get("max_err_over_tol", 0.0), err / tol)
@@ -186,12 +187,13 @@ def _step(s, op, ctx):
         dx = s["dx64"]
         scale = dx**dim * s["Gnorm"] * float(amp)
         # reciprocity
-        if abs(float(ua[ib]) - float(ub[ia])) > 2 * K_TOL * eps * scale:
+        tiny = 64 * float(np.finfo(real_t).tiny)
+        if abs(float(ua[ib]) - float(ub[ia])) > 2 * K_TOL * eps * scale + tiny:
             raise Violation(f"reciprocity broken: u^a[b]={float(ua[ib])!r} u^b[a]={float(ub[ia])!r} a={ia} b={ib}")
         # no periodic images: response equals h^d G(separation) * amp
         sep = tuple(int(q - p) + (n - 1) for p, q, n in zip(ia, ib, shape))
         expect = dx**dim * float(s["G"][sep]) * float(amp)
-        if abs(float(ua[ib]) - expect) > K_TOL * eps * scale + 4 * eps * abs(expect):
+        if abs(float(ua[ib]) - expect) > K_TOL * eps * scale + 4 * eps * abs(expect) + tiny:
             raise Violation(f"impulse response at {ib} from {ia} is {float(ua[ib])!r}, free-space value {expect!r} (images?)")
         s["impulse"] = True
         corner = all(i in (0, n - 1) for i, n in zip(ia, shape)) and all(i in (0, n - 1) for i, n in zip(ib, shape))
